@@ -56,10 +56,16 @@ def creations(cls, bits):
            ('bitarray-kw', [f"ext = bitarray.bitarray({bits!r})", f"a = bitstring.{cls}(bitarray=ext)"]),
            ('bits-kw-mutable', [f"ext = bitstring.BitArray(bin={bits!r})", f"a = bitstring.{cls}(bits=ext)"]),
            ('from-mutable', [f"ext = bitstring.BitStream(bin={bits!r})", f"a = bitstring.{cls}(ext)"]),
-           ('pack', [f"a = bitstring.{cls}(bitstring.pack('bits', {lit(bits)!r}))"])]
+           ('pack', [f"a = bitstring.{cls}(bitstring.pack('bits', {lit(bits)!r}))"]),
+           ('kw-uint', [f"a = bitstring.{cls}(uint={int(bits, 2)}, length={len(bits)})"]),
+           ('kw-int', [f"a = bitstring.{cls}(int={int(bits, 2) - (1 << len(bits)) if bits[0] == '1' else int(bits, 2)}, length={len(bits)})"]),
+           ('kw-bin', [f"a = bitstring.{cls}(bin={bits!r})"]), ('token-uint', [f"a = bitstring.{cls}('uint:{len(bits)}={int(bits, 2)}')"])]
     if len(bits) % 4 == 0:
         out.append(('hexstr', [f"a = bitstring.{cls}({hexlit(bits)!r})"]))
     if len(bits) % 8 == 0:
+        le = int.from_bytes(int(bits, 2).to_bytes(len(bits) // 8, 'big'), 'little')
+        out += [('kw-uintle', [f"a = bitstring.{cls}(uintle={le}, length={len(bits)})"]), ('kw-uintne-sized', [f"a = bitstring.{cls}(uintne{len(bits)}={le})"]),
+                ('kw-bytes', [f"a = bitstring.{cls}(bytes={by!r})"])]
         out += [('bytearray', [f"ext = bytearray({by!r})", f"a = bitstring.{cls}(ext)"]),
                 ('memoryview', [f"ext = bytearray({by!r})", f"a = bitstring.{cls}(memoryview(ext))"]),
                 ('array', [f"ext = array.array('B', {by!r})", f"a = bitstring.{cls}(ext)"]),
@@ -254,6 +260,14 @@ def one_history(bs, acc, shard, base, members, target, m, dname, T, hop):
         k = bad[0]
         acc.violation(op, 'frame', dict(detail, changed=k), hist_snippet(base, msrc, others), {x: before[x][:2] for x in bad}, {x: value_of(ns[x])[:2] for x in bad})
     acc.outcome((op, r[0], changed, bool(bad)))
+    # RECREATE: running the creation recipe again must still give the cold value (a memoised store handed to a mutable owner would show)
+    if target in ('a', 'd', 'd2') and r[0] == 'ok' and changed and m in MUTATE_BITS[:2]:
+        ns2 = namespace(bs)
+        create_only = [ln for ln in base if not ln.startswith(('d = ', 'd2 = '))]
+        if exec_lines(ns2, create_only)[0] == 'ok':
+            acc.step('recreate', 1, nontrivial=1, ok=1)
+            if ns2['a'].bin != shard['bits']:
+                acc.violation('recreate', 'value', dict(detail, what='creation recipe'), hist_snippet(base, msrc, [], extra=create_only + [f"assert a.bin == {shard['bits']!r}, a.bin"]), shard['bits'], ns2['a'].bin)
     # RECREATE: the same string must still give the cold value
     if shard['creation'] in ('str', 'str-cached', 'hexstr', 'fromstring', 'pack') or dname in ('fromstring', 'pack-bits', 'add-empty'):
         for s in (lit(shard['bits']), hexlit(shard['bits']) if len(shard['bits']) % 4 == 0 else None, '0b1', ''):
